@@ -277,6 +277,29 @@ func TempDir() string {
 	return d
 }
 
+// SnapshotDir copies directory src (files only, one level) into a fresh directory and returns
+// its path: the on-disk state a process killed at this instant would leave behind.
+func SnapshotDir(src string) string {
+	dst := TempDir()
+	ents, err := os.ReadDir(src)
+	if err != nil {
+		panic(err)
+	}
+	for _, e := range ents {
+		if e.IsDir() {
+			continue
+		}
+		b, err := os.ReadFile(src + "/" + e.Name())
+		if err != nil {
+			panic(err)
+		}
+		if err := os.WriteFile(dst+"/"+e.Name(), b, 0644); err != nil {
+			panic(err)
+		}
+	}
+	return dst
+}
+
 // Cleanup removes directories handed out by TempDir.
 func Cleanup() {
 	for _, d := range tempDirs {
@@ -290,6 +313,7 @@ func SchedMode(maxPreempt int) {}
 func EagerSpawn(on bool)       {}
 func ExploreOrder(on bool)     {}
 func Drain()                   {}
+func KillOthers()              {}
 func Yield(label string)       {}
 func DeadlockIsViolation()     {}
 func AllocLimit(n int)         {}
